@@ -304,6 +304,45 @@ def handler : Handler := fun op j =>
         ("out_dtype", jS o.outDt.name), ("h_dtype", jS o.hDt.name),
         ("h", vecOut o.k o.h),
         ("eval", jArr ((xs.getD []).map (fun x => vecOut o.outLen (o.eval (vecOf x)))))]))
+  | "stackx" => do
+    -- a stack used inside further constructions: inner stack, optionally stacked again with further
+    -- expressions, optionally followed by a unary view / scalar multiple / sum with itself
+    let getStack (jj : Json) : Option (String × List (LExpr C) × Bool × Bool) := do
+      some (← fStr? jj "kind", ← (field? jj "es").bind (getListOf? getExpr?), (fBool? jj "cin").getD true, (fBool? jj "cout").getD true)
+    let (k1, es1, ci1, co1) ← getStack (← field? j "inner")
+    let outer ← optField? j "outer" getStack
+    let post ← optField? j "post" getStr?
+    let xs ← (optField? j "xs" (getListOf? getCxs?))
+    let ys ← (optField? j "ys" (getListOf? getCxs?))
+    let r : Except Err (Obj C) := do
+      let s1 ← (if k1 == "v" then buildVStack true es1 co1 else buildDStack true es1 ci1 co1)
+      let s2 ← (match outer with
+        | none => pure s1
+        | some (k2, es2, ci2, co2) => do
+          let os ← buildAll Cfg.fixed es2
+          if k2 == "v" then vstack true (s1 :: os) co2 else dstack true (s1 :: os) ci2 co2)
+      match post with
+      | some "T" => opT Cfg.fixed s2
+      | some "H" => opH Cfg.fixed s2
+      | some "conj" => opConj Cfg.fixed s2
+      | some "gram" => opGram Cfg.fixed s2
+      | some "neg" => neg Cfg.fixed s2
+      | some "twice" => addSub Cfg.fixed false s2 s2
+      | some "half" => sdiv Cfg.fixed s2 ⟨⟨2, 0⟩, .pyFloat⟩
+      | _ => pure s2
+    match r with
+    | .error kd => some (err kd.name)
+    | .ok o =>
+      let md := o.md
+      let n := md.inShape.size
+      let m := md.outShape.size
+      some (ok (jObj [
+        ("in_shape", jShape md.inShape), ("out_shape", jShape md.outShape),
+        ("in_dtype", jS md.inDt.name), ("out_dtype", jS md.outDt.name),
+        ("matrix_shape", jNs [md.matrixShape.1, md.matrixShape.2]),
+        ("eval", jArr ((xs.getD []).map (fun x => vecOut m (o.eval (vcOf x)).get))),
+        ("adj", jArr ((ys.getD []).map (fun y => vecOut n (o.adj (vcOf y)).get))),
+        ("eval_dt", jDtRes (o.evalDt md.inDt)), ("adj_dt", jDtRes (o.adjCallDt md.outDt))]))
   | "result_type" => do
     let a ← fDT? j "a"
     let k ← getKind? j
